@@ -314,15 +314,18 @@ type failure struct {
 
 // Run is the per-process context of one property check.
 type Run struct {
-	T        *testing.T
-	Prop     string
-	Tier     string
-	Seed     uint64
-	Shard    int
-	NShards  int
-	OutDir   string
-	Replay   string
-	verifDir string
+	// ShrinkTime bounds rapid's shrinking ("20s" when empty). Checks whose cases run in real time set it low: every
+	// shrink attempt costs seconds there, and a violation must be reported, not shrunk into the test deadline.
+	ShrinkTime string
+	T          *testing.T
+	Prop       string
+	Tier       string
+	Seed       uint64
+	Shard      int
+	NShards    int
+	OutDir     string
+	Replay     string
+	verifDir   string
 
 	mu          sync.Mutex
 	known       map[string]knownFinding
@@ -578,7 +581,14 @@ func (r *Run) Rapid(part string, n int, prop func(*Case)) bool {
 	_ = flag.Set("rapid.checks", strconv.Itoa(n))
 	_ = flag.Set("rapid.seed", strconv.FormatUint(r.subSeed(part), 10))
 	_ = flag.Set("rapid.nofailfile", "true")
-	_ = flag.Set("rapid.shrinktime", "20s")
+	st := os.Getenv("VERIF_SHRINKTIME")
+	if st == "" {
+		st = r.ShrinkTime
+	}
+	if st == "" {
+		st = "20s"
+	}
+	_ = flag.Set("rapid.shrinktime", st)
 	tb := &captureTB{name: r.Prop + "_" + part}
 	before := r.evals
 	func() {
